@@ -63,9 +63,7 @@ Definition cumsumZ (l : list Z) : list Z := cumsumZ_from 0%Z l.
      intervals -= 1                        -> dec
      spikes = <test on intervals>          -> fire p
      intervals[spikes] = <fresh draws>     -> renew p e, draws consumed in row-major order of the spiking elements
-     yield spikes
-   [guard k] says whether the masked assignment of this step succeeds when k elements spike (False -> the
-   generator raises RuntimeError and nothing more is yielded). *)
+     yield spikes *)
 Section Online.
 Context {St E P : Type}.
 Variable dec : St -> St.
@@ -87,19 +85,14 @@ Fixpoint fires (ps : list P) (ivs : list St) : list bool :=
   | _, _ => []
   end.
 
-(* returns (slices yielded, raised?) *)
-Fixpoint online_loop (guard : nat -> bool) (ps : list P) (ivs : list St) (draws : list (list E)) (steps : nat)
-  : list (list bool) * bool :=
+(* the slices yielded, in order *)
+Fixpoint online_loop (ps : list P) (ivs : list St) (draws : list (list E)) (steps : nat) : list (list bool) :=
   match steps with
-  | O => ([], false)
+  | O => []
   | S m =>
       let ivs1 := map dec ivs in
       let spk := fires ps ivs1 in
-      if guard (count_true spk) then
-        let ivs2 := refill ivs1 spk ps (hd [] draws) in
-        let '(rest, raised) := online_loop guard ps ivs2 (tl draws) m in
-        (spk :: rest, raised)
-      else ([], true)
+      spk :: online_loop ps (refill ivs1 spk ps (hd [] draws)) (tl draws) m
   end.
 
 (* one element on its own: the independent description used by the theorems.
@@ -185,28 +178,14 @@ Definition ext_dec (a : ext) : ext := option_map (fun v => sub N v (one N)) a.
 Definition ext_lt1 (a : ext) : bool := match a with None => false | Some v => ltb N v (one N) end.
 Definition exp_fire (_ : ext) (i : ext) : bool := ext_lt1 i.
 
-(* AS CODED [encoding.py:351-357]:  intervals[spikes] = empty_like(intervals[spikes]).exponential_() * inputs + refrac
-   multiplies a length-k vector with the WHOLE inputs tensor.  With k spiking elements out of n, inputs of
-   shape [d1..dm]: the product broadcasts and can be assigned back only if n = 1, or all leading dimensions
-   are 1 and k = n (every element spikes).  Otherwise RuntimeError. *)
-Definition assign_ok (shape : list nat) (n : nat) (k : nat) : bool :=
-  (n =? 1)%nat || (forallb (Nat.eqb 1) (removelast shape) && (k =? n)%nat).
-
-Definition exp_online_gen (guard : nat -> bool) (steps : nat) (dt : T) (refrac : option T) (compensate : bool)
-           (inps : list T) (draws0 : list T) (draws : list (list T)) : list (list bool) * bool :=
+(* intervals[spikes] = empty_like(intervals[spikes]).exponential_() * inputs[spikes] + refrac   [encoding.py:351-357] *)
+Definition exp_online (steps : nat) (dt : T) (refrac : option T) (compensate : bool)
+           (inps : list T) (draws0 : list T) (draws : list (list T)) : list (list bool) :=
   let r := refrac_steps refrac dt in
   let scales := map (fun inp => scale_of inp dt r compensate) inps in
-  (* initial intervals: empty_like(inputs).exponential_() * inputs + refrac (element-wise: shapes agree) *)
+  (* initial intervals: empty_like(inputs).exponential_() * inputs + refrac *)
   let ivs0 := map (fun se => interval r (fst se) (snd se)) (combine scales draws0) in
-  online_loop ext_dec exp_fire (interval r) (zero N) guard scales ivs0 draws steps.
-
-(* the function as it is written *)
-Definition exp_online_coded (shape : list nat) steps dt refrac compensate inps draws0 draws :=
-  exp_online_gen (assign_ok shape (length inps)) steps dt refrac compensate inps draws0 draws.
-(* the element-wise reading (what `* inputs[spikes]` would compute); equal to the coded one whenever the
-   coded one does not raise (theorem exp_online_coded_agrees) *)
-Definition exp_online_elemwise steps dt refrac compensate inps draws0 draws :=
-  exp_online_gen (fun _ => true) steps dt refrac compensate inps draws0 draws.
+  online_loop ext_dec exp_fire (interval r) (zero N) scales ivs0 draws steps.
 
 (* ---- poisson_interval (offline), one element.  Poisson samples are integral: draws in Z.
    mask = inputs > 0; rates of masked-out elements are 0, so their samples are 0. *)
@@ -233,8 +212,8 @@ Definition pi_offline (steps : nat) (inps : list T) (draws : list (list Z)) : re
         intervals[spikes] = poisson(inputs[spikes]) *)
 Definition pi_fire (mask : bool) (i : Z) : bool := (i <? 1)%Z && mask.
 Definition pi_online (steps : nat) (inps : list T) (draws0 : list Z) (draws : list (list Z))
-  : list (list bool) * bool :=
-  online_loop (fun i => (i - 1)%Z) pi_fire (fun (_ : bool) (e : Z) => e) 0%Z (fun _ => true)
+  : list (list bool) :=
+  online_loop (fun i => (i - 1)%Z) pi_fire (fun (_ : bool) (e : Z) => e) 0%Z
               (map pi_mask inps) draws0 draws steps.
 
 (* ---- Bernoulli approximations: p = ((inputs / 1000.0) * step_time).clamp_max_(1.0);
@@ -267,18 +246,17 @@ Definition hpe_offline (c : config) (xs : list T) (draws : list (list T)) : resu
   if valid_step c && valid_refrac c then
     exp_offline (Z.to_nat (c_steps c)) (c_dt c) (Some (enc_refrac c)) (c_comp c) (scaled_inputs (c_freq c) xs) draws
   else Err EValue.
-Definition hpe_online (coded : bool) (shape : list nat) (c : config) (xs : list T) (draws0 : list T)
-           (draws : list (list T)) : result (list (list bool) * bool) :=
+Definition hpe_online (c : config) (xs : list T) (draws0 : list T) (draws : list (list T))
+  : result (list (list bool)) :=
   if valid_step c && valid_refrac c then
-    Ok (exp_online_gen (if coded then assign_ok shape (length xs) else fun _ => true)
-                       (Z.to_nat (c_steps c)) (c_dt c) (Some (enc_refrac c)) (c_comp c)
-                       (scaled_inputs (c_freq c) xs) draws0 draws)
+    Ok (exp_online (Z.to_nat (c_steps c)) (c_dt c) (Some (enc_refrac c)) (c_comp c)
+                   (scaled_inputs (c_freq c) xs) draws0 draws)
   else Err EValue.
 (* PoissonIntervalEncoder.forward *)
 Definition pie_offline (c : config) (xs : list T) (draws : list (list Z)) : result (list (list bool)) :=
   if valid_step c then pi_offline (Z.to_nat (c_steps c)) (scaled_inputs (c_freq c) xs) draws else Err EValue.
 Definition pie_online (c : config) (xs : list T) (draws0 : list Z) (draws : list (list Z))
-  : result (list (list bool) * bool) :=
+  : result (list (list bool)) :=
   if valid_step c then Ok (pi_online (Z.to_nat (c_steps c)) (scaled_inputs (c_freq c) xs) draws0 draws)
   else Err EValue.
 (* HomogeneousPoissonApproxEncoder.forward: spike probabilities (the sampler's parameter) and spikes *)
